@@ -87,6 +87,10 @@ def jobs(tier, seed):
                     'opts': {'feas_ms': 1000}})
     out.append({'fn': 'amount_sym', 'cfg': {'recv': 'dv', 'qratios': QVECTORS[1], 'disperse': True, 'mode': 'ROUND_HALF_EVEN'},
                 'opts': {'feas_ms': 1000}})
+    for recv, amt in (('user', '2'), ('money', '2'), ('dv', '0.00025')):
+        for n in (2,):
+            out.append({'fn': 'mode_switch', 'cfg': {'recv': recv, 'n': n, 'amount': amt},
+                        'opts': {'linearise': True, 'feas_ms': 1000}})
     out.append({'fn': 'bad_ratios', 'cfg': {}})
     out.append({'fn': 'ratios_sym', 'cfg': {'recv': 'dv', 'n': 2, 'disperse': True, 'amount': '10', 'mode': 'ROUND_HALF_EVEN',
                                             'flav': 'frac', 'canary': True}, 'opts': {'linearise': True}, 'canary': True})
@@ -208,3 +212,32 @@ def bad_ratios(E, cfg):
     C.expect_raises(E, lambda: q.allocate([1 * pre.KILOGRAM, 2]), TypeError, 'mixed-quantity-and-number-rejected')
     C.expect_raises(E, lambda: q.allocate([1 * pre.KILOGRAM, 2 * pre.METRE]), IncompatibleUnitsError,
                     'mixed-quantity-types-rejected')
+
+
+def mode_switch(E, cfg):
+    """the same allocation under three default rounding modes in one process: each result obeys the bounds of
+    the mode that is active when it is computed"""
+    cls, unit, quantum = _receiver(E, cfg['recv'])
+    n = cfg['n']
+    q = cls(C.num(cfg['amount']), unit)
+    amount_before = q.amount
+    rs = [E.rational('r%d' % i, 'frac') for i in range(n)]
+    E.assume(E.And(*[r > 0 for r in rs]))
+    tot = rs[0]
+    for r in rs[1:]:
+        tot = tot + r
+    E.assume(tot == 1)
+    for mname in ('ROUND_FLOOR', 'ROUND_HALF_EVEN', 'ROUND_CEILING'):
+        C.set_default_mode(mname)
+        for disperse in (False,):
+            portions, remainder = q.allocate(list(rs), disperse)
+            _obligations(E, q, amount_before, [E.exact(r) for r in rs], portions, remainder, quantum, disperse, mname, cls,
+                         unit, [cfg, mname, disperse])
+            if not disperse:
+                # directed modes: every portion on the side the mode prescribes
+                for i, p in enumerate(portions):
+                    share = amount_before * E.exact(rs[i])
+                    if mname == 'ROUND_FLOOR':
+                        E.check(p.amount <= share, 'floor-portion-not-above-share', key='alloc:mode-side', info=[cfg, mname])
+                    elif mname == 'ROUND_CEILING':
+                        E.check(p.amount >= share, 'ceiling-portion-not-below-share', key='alloc:mode-side', info=[cfg, mname])
